@@ -5,10 +5,10 @@ package main
 
 import (
 	"bufio"
-	"math/rand"
-	"os"
 	"fmt"
 	"io"
+	"math/rand"
+	"os"
 	"os/exec"
 	"strconv"
 	"strings"
